@@ -582,6 +582,43 @@ def id_keyed(model, R, scope):
     R.ok('ID-KEY', 'examined functions', 'concepts/', f'{n} id() calls scanned')
 
 
+def mask_sum(model, R, scope):
+    """``sum(map(<BitSet>._map.__getitem__, labels))``: the library's way to turn labels into a bit vector adds the members'
+    masks, which is only the union when every member occurs once - the collection must be de-duplicated (``set(labels)``)
+    first.  (bitsets' own frommembers does exactly that.)"""
+    from .astutil import Env
+    n = 0
+    for func in scope:
+        env = None
+        for node in walk(func.body):
+            if not (isinstance(node, ast.Call) and isinstance(node.func, ast.Name) and node.func.id == 'sum' and len(node.args) >= 1):
+                continue
+            arg = node.args[0]
+            if isinstance(arg, ast.Name):
+                env = env or Env(func)
+                arg = env.expand(arg)
+            coll = None
+            if isinstance(arg, ast.Call) and isinstance(arg.func, ast.Name) and arg.func.id == 'map' and len(arg.args) == 2:
+                c = chain(arg.args[0])
+                if c and len(c) >= 2 and c[-1] == '__getitem__' and c[-2] == '_map':
+                    coll = arg.args[1]
+            elif isinstance(arg, ast.GeneratorExp) and len(arg.generators) == 1 and isinstance(arg.elt, ast.Subscript):
+                c = chain(arg.elt.value)
+                if c and c[-1] == '_map':
+                    coll = arg.generators[0].iter
+            if coll is None:
+                continue
+            n += 1
+            if isinstance(coll, ast.Name):
+                env = env or Env(func)
+                coll = env.expand(coll)
+            dedup = isinstance(coll, (ast.Set, ast.SetComp)) or (isinstance(coll, ast.Call) and isinstance(coll.func, ast.Name) and coll.func.id in ('set', 'frozenset'))
+            R.decided(dedup, 'MASK-SUM', func, node, 'member masks are added only for distinct members', 'sum(map(cls._map.__getitem__, set(members)))',
+                      src(node)[:90], extra={'consequence': 'a label given twice contributes its bit twice: the sum carries into another position '
+                                                             '(a different member, or beyond the table)'} if not dedup else None)
+    R.ok('MASK-SUM', 'examined functions', 'concepts/', f'{n} mask sums scanned')
+
+
 def signature_order(model, R, scope):
     """Public functions keep the positional order of the parameters they have today (frozen table pinned_signatures.json):
     callers pass them by position.  New parameters may only follow the existing positional ones (or be keyword-only).
@@ -684,3 +721,4 @@ def run(model, R):
     bitlength_index(model, R, scope)
     signature_order(model, R, scope)
     id_keyed(model, R, scope)
+    mask_sum(model, R, scope)
